@@ -1,6 +1,7 @@
 #pragma once
 
 #include <algorithm>
+#include <cstdlib>
 #include <cstring>
 
 #include <dsplib/assert.h>
@@ -29,9 +30,10 @@ public:
         _n = n;
         _i1 = (i1 < 0) ? (_n + i1) : (i1);
         _i2 = (i2 < 0) ? (_n + i2) : (i2);
-        const int d = std::abs(_i2 - _i1);
-        const int tm = std::abs(_m);
-        _nc = (d % tm != 0) ? (d / tm + 1) : (d / tm);
+        //64-bit: std::abs(INT_MIN) is undefined
+        const long long d = std::llabs(static_cast<long long>(_i2) - _i1);
+        const long long tm = std::llabs(static_cast<long long>(_m));
+        _nc = static_cast<int>((d % tm != 0) ? (d / tm + 1) : (d / tm));
 
         if ((_i1 < 0) || (_i1 >= _n)) {
             DSPLIB_THROW("Left slice index out of range");
